@@ -25,6 +25,16 @@ pub enum Exp {
     Learned,
     /// hash of body number k of this scenario's body universe (usually stale)
     OfBody(u32),
+    /// hash of the 64-byte body number t that all clients share (`shared_body: Some(t)`)
+    OfShared(u32),
+}
+
+/// The 64-byte body number `t` shared by all clients, and the conflict-copy name it gets next to `p`.
+pub fn shared64(t: u32) -> Vec<u8> {
+    put_body(99, t as usize, 64)
+}
+pub fn conflict_name_of_shared(p: &str, t: u32) -> String {
+    format!("{p}.conflict-{}", short_hex(&b3(&shared64(t))))
 }
 
 #[derive(Clone, Debug, Serialize, Deserialize, PartialEq)]
@@ -278,6 +288,7 @@ pub fn client_main(
                     }
                 }),
                 Exp::OfBody(k) => Some(b3(&init_body(*k))),
+                Exp::OfShared(t) => Some(b3(&shared64(*t))),
             }
         };
         let mut frame = Vec::new();
@@ -682,6 +693,9 @@ fn apply_model(m: &mut Model, op: &HOp, relax: Relax) -> bool {
         }
         OpKindH::Get { path } => {
             let path = &norm_path(path);
+            if is_hub_private(path) {
+                return matches!(rep, Reply::Error(_));
+            }
             if relax == Relax::GetReplies {
                 return matches!(rep, Reply::Content { .. } | Reply::Error(_));
             }
@@ -693,8 +707,9 @@ fn apply_model(m: &mut Model, op: &HOp, relax: Relax) -> bool {
         }
         OpKindH::Put { path, expected, body, declared, .. } => {
             let path = &norm_path(path);
-            if *declared != Declared::Valid {
-                // an invalid put changes nothing and is answered with an error (or nothing)
+            if *declared != Declared::Valid || is_hub_private(path) {
+                // an invalid put changes nothing and is answered with an error (or nothing);
+                // the hub's own directory is not a client path
                 return matches!(rep, Reply::Error(_));
             }
             // a path below a regular file cannot hold anything: refused, nothing changes
@@ -712,12 +727,15 @@ fn apply_model(m: &mut Model, op: &HOp, relax: Relax) -> bool {
                 *rep == Reply::PutResult { committed: true, current: Some(b3(body)) }
             } else {
                 add_parent_dirs(m, path);
-                m.insert(format!("{path}.conflict-{}", short_hex(&b3(body))), body.clone());
+                m.insert(free_conflict_name(m, path, body), body.clone());
                 *rep == Reply::PutResult { committed: false, current: cur }
             }
         }
         OpKindH::Delete { path, expected } => {
             let path = &norm_path(path);
+            if is_hub_private(path) {
+                return matches!(rep, Reply::Error(_));
+            }
             let cur = m.get(path).map(|b| b3(b));
             if cur == *expected {
                 m.remove(path);
@@ -729,13 +747,25 @@ fn apply_model(m: &mut Model, op: &HOp, relax: Relax) -> bool {
     }
 }
 
+/// Where the conflict-copy of `body` next to `path` goes: `<path>.conflict-<h12>`, unless that
+/// name holds OTHER content (a client committed something there — "no acknowledged content ever
+/// vanishes"): then one conflict-suffix further, and so on.
+fn free_conflict_name(m: &Model, path: &str, body: &[u8]) -> String {
+    let suffix = format!(".conflict-{}", short_hex(&b3(body)));
+    let mut name = format!("{path}{suffix}");
+    while m.get(&name).map_or(false, |b| b != body) {
+        name.push_str(&suffix);
+    }
+    name
+}
+
 /// Effect of a request whose reply never arrived (its server died): what the sequential hub
 /// would have done with it in state `m`.
 fn apply_effect(m: &mut Model, op: &HOp) -> bool {
     match &op.kind {
         OpKindH::Put { path, expected, body, declared, .. } => {
             let path = &norm_path(path);
-            if *declared != Declared::Valid || below_a_file(m, path) {
+            if *declared != Declared::Valid || below_a_file(m, path) || is_hub_private(path) {
                 return true;
             }
             let cur = m.get(path).map(|b| b3(b));
@@ -747,12 +777,15 @@ fn apply_effect(m: &mut Model, op: &HOp) -> bool {
                 m.insert(path.clone(), body.clone());
             } else {
                 add_parent_dirs(m, path);
-                m.insert(format!("{path}.conflict-{}", short_hex(&b3(body))), body.clone());
+                m.insert(free_conflict_name(m, path, body), body.clone());
             }
             true
         }
         OpKindH::Delete { path, expected } => {
             let path = &norm_path(path);
+            if is_hub_private(path) {
+                return true;
+            }
             if m.get(path).map(|b| b3(b)) == *expected {
                 m.remove(path);
             }
